@@ -7,7 +7,7 @@ Definition obs_member (n : node) : member :=
 
 Definition model (i : input) : obs :=
   {| o_iter := iterate (tree i);
-     o_filter := paths (filter_ids (fun x => mem x (keep i)) (tree i));
+     o_filter := map grouped (paths (filter_ids (fun x => mem x (keep i)) (tree i)));
      o_sorted := match sorted_tests (unpack i) (tree i) with
                  | Ok (Plain ms) => Ok (map obs_member ms)
                  | Ok n => Ok [obs_member n]
@@ -22,7 +22,7 @@ Definition member_eqb : member -> member -> bool := pair_eqb Bool.eqb (list_eqb 
 
 Definition obs_eqb (a b : obs) : bool :=
   list_eqb Nat.eqb (o_iter a) (o_iter b)
-  && list_eqb path_eqb (o_filter a) (o_filter b)
+  && list_eqb group_eqb (o_filter a) (o_filter b)
   && res_eqb (list_eqb member_eqb) exn_eqb (o_sorted a) (o_sorted b)
   && list_eqb Nat.eqb (o_list a) (o_list b)
   && list_eqb Nat.eqb (o_cli_list a) (o_cli_list b)
